@@ -226,6 +226,28 @@ def seq_item(item):
     return rep
 
 
+def order_changed_only_by_node_removal(data):
+    """re-applies the transformations one at a time: True iff every step after which s_nodes lists the state elements in another order
+    is one that removes nodes (eliminate_1to1_forks, resolve); copy / pickle must keep the order they are given"""
+    try:
+        if data.get('mode') == 'subst':
+            cells = lib_cells(data['lib'])
+            c = wrapper(data['kind'], cells[data['kind']], data['in_mask'], data['out_mask'], data['variant'])
+            c.resolve_tlib_cells(_Lib(cells))
+            seq = data['post']
+        else:
+            c = netlist.from_recipe(data['recipe']); seq = data['seq']
+        prev = [n.name for n in c.s_nodes]
+        for t in seq:
+            c = TRANSFORMS[t](c)
+            cur = [n.name for n in c.s_nodes]
+            if cur != prev and t != 'elim': return False
+            prev = cur
+        return True
+    except Exception:
+        return False
+
+
 def finish(rep, res, data, key, name):
     if res is None: return
     kind, payload = res
@@ -236,7 +258,7 @@ def finish(rep, res, data, key, name):
     if ok and kind == 'function' and explained_by_sized(d):
         key, what = 'shape=sized-and-trailing-open-pin', f'{name}: {what} (sized AND/NAND primitive with a trailing open pin takes its arity from the connected pins instead of reading 0)'
     if ok and kind == 'names-permuted':
-        removes_nodes = data.get('mode') == 'subst' or 'elim' in data.get('seq', [])
+        removes_nodes = order_changed_only_by_node_removal(data)
         kind = 'names'
         if removes_nodes:          # Node.remove() moves the node with the highest index into the freed position (documented); s_nodes follows node order
             key, kind, what = 'order=state-elements-permuted-by-node-removal', 'function', f'{name}: {payload}'
@@ -378,6 +400,9 @@ def jobs(tier, seed):
             for seq in seqs: J.append(('seq', (('nl', nl.to_json(), style), seq)))
     for r in netlist.G4:
         for seq in (('copy',), ('pickle',), ('elim',), ('elim', 'copy', 'pickle')): J.append(('seq', (r, seq)))
+    # one signal on all four pins of 70 gates: a fork with 280 branches in a circuit of fewer than 256 nodes (pin numbers exceed node numbers)
+    wide = netlist.NL('wide280', [('a', 'in'), ('b', 'in')] + [(f'o{k}', 'out') for k in range(70)], [(f'g{k}', 'AND4' if k % 2 else 'OR4', [f'o{k}'], ['a', 'a', 'b' if k == 69 else 'a', 'a']) for k in range(70)])
+    for seq in (('copy',), ('pickle',), ('pickle', 'copy')): J.append(('seq', (('nl', wide.to_json(), 'bench'), seq)))
     for libname in LIBS + ['CUSTOM']:
         cells = lib_cells(libname)
         seen = set()
